@@ -524,7 +524,7 @@ func TestC13(t *testing.T) {
 	// (b) random values and words
 	n := 100000
 	if thorough() {
-		n = 4000000
+		n = 30000000
 	}
 	n /= nsh
 	valGen := rapid.OneOf(
